@@ -95,13 +95,15 @@ theorem parseIndexPage_total (page : Bytes) (num t : Nat) : ∃ r, parseIndexPag
   · simp (disch := omega) only [uN_ok, ok_bind]
     split
     · simp (disch := omega) only [sliceFrom_ok, ok_bind]
+      have fin : ∀ (m : M PageInfo), (∃ r, m = .ok r) → ∃ r, (do let info ← m; pure (metaHasNoItems info)) = .ok r := by
+        rintro m ⟨r, rfl⟩; exact ⟨_, rfl⟩
       split
-      · exact parseBTreePageSpecial_total _ _
-      · exact parseHashPageSpecial_total _ _
-      · exact parseGiSTPageSpecial_total _ _
-      · exact parseGINPageSpecial_total _ _
-      · exact parseSPGiSTPageSpecial_total _ _
-      · exact parseBRINPageSpecial_total _ _
+      · exact fin _ (parseBTreePageSpecial_total _ _)
+      · exact fin _ (parseHashPageSpecial_total _ _)
+      · exact fin _ (parseGiSTPageSpecial_total _ _)
+      · exact fin _ (parseGINPageSpecial_total _ _)
+      · exact fin _ (parseSPGiSTPageSpecial_total _ _)
+      · exact fin _ (parseBRINPageSpecial_total _ _)
       · exact ⟨_, rfl⟩
     · exact ⟨_, rfl⟩
 
